@@ -7,7 +7,7 @@
     [Inv] = [InvS] /\ [InvD]. *)
 From Coq Require Import Ascii String List Bool PArith NArith ZArith QArith FMapPositive Permutation.
 From PTBase Require Import Exn PyStr.
-From P Require Import Assoc GeoState GeoEdit GeoEdit2 GeoStep Inv InvNames InvSimple Sets InvCol InvConn InvDel InvRefresh InvRename InvCompound InvSplit InvSplit2 InvSnap InvDecomp InvRefine InvCheck Reach Witness.
+From P Require Import Assoc GeoState GeoEdit GeoEdit2 GeoStep Inv InvNames InvSimple Sets InvCol InvConn InvDel InvRefresh InvRename InvCompound InvSplit InvSplit2 InvSnap InvDecomp InvRefine InvCheck Reach Witness InvConseq.
 Import ListNotations.
 Open Scope list_scope.
 
@@ -344,3 +344,27 @@ Theorem refine_conforming_preserves : forall g names h g', Inv g ->
   (forall g4, refine_prefix g names h = Ok (Some g4) -> shares_side g4) -> refine g names h = Ok g' -> Inv g'.
 Proof. exact refine_inv_conforming. Qed.
 Print Assumptions refine_conforming_preserves.
+
+(** ** the statement's words read off the invariant, for every state: "each column knows exactly its neighbours
+    (symmetrically)" -- a neighbour of a listed column is a different listed column that has the column among its own
+    neighbours; "each connection's two nodes are the edge its two columns share" -- two neighbouring columns are joined by a
+    listed connection that both of them hold and whose two distinct nodes are nodes of both *)
+Theorem neighbours_are_symmetric : forall g c d, Inv g -> In c (clist g) -> In d (cnb g c) ->
+  In d (clist g) /\ d <> c /\ In c (cnb g d).
+Proof. exact nbr_symmetric. Qed.
+Print Assumptions neighbours_are_symmetric.
+Theorem neighbours_share_the_nodes_of_their_connection : forall g c d, Inv g -> In c (clist g) -> In d (cnb g c) ->
+  exists k a b, In k (klist g) /\ In k (cks g c) /\ In k (cks g d) /\ kn g k = Some (a, b) /\ a <> b /\
+    In a (cns g c) /\ In b (cns g c) /\ In a (cns g d) /\ In b (cns g d).
+Proof. exact nbr_share_edge. Qed.
+Print Assumptions neighbours_share_the_nodes_of_their_connection.
+(** the invariant after every finite sequence of edits applied to the EMPTY geometry: no hypothesis on a start state is
+    left ([geo_inv_init] composed with [geo_inv_reachable] / [geo_invS_reachable]) *)
+Theorem geo_inv_from_empty : forall cv a f ops g',
+  all_pre pre (empty_geo cv a f) ops -> run (empty_geo cv a f) ops = Ok g' -> Inv g'.
+Proof. exact inv_from_empty. Qed.
+Print Assumptions geo_inv_from_empty.
+Theorem geo_invS_from_empty : forall cv a f ops g',
+  all_pre preS (empty_geo cv a f) ops -> run (empty_geo cv a f) ops = Ok g' -> InvS g'.
+Proof. exact invS_from_empty. Qed.
+Print Assumptions geo_invS_from_empty.
